@@ -166,6 +166,8 @@ def check_C12(c):
     mc_deflate_core(c)
     mc_lz(c, ("lazy",))
     c.scenario("flushes")
+    # flush points reached through the deflate() wrapper (its flush-mode mapping is part of C12)
+    c.scenario("deflate_protocol_c12")
     return c.finish("model_checking", RULE_COMP, TRUST)
 
 
